@@ -1,19 +1,23 @@
 (** C17 — Triggers fire at most once, in order, atomically, with their creators' authority.
-    Theorem statements only; proofs are in Proofs/TriggerProofs.v about the model Trigger/Trigger.v.
-    A history is any list of blocks [bs] run from the empty trigger store ([init b0], any balances b0):
-    every block is (begin) dispatch from the queue head, (txs) creations / destructions / plain sends,
-    (end) detection of transaction events, then height, then time.  The outcome oracle of the actions,
-    the gas figures and the events of each block are arbitrary. *)
+    Theorem statements only; proofs are in Proofs/Trigger*Proofs.v about the model Trigger/Trigger.v.
+    A history is any list of blocks [bs] run from any well-formed start state [s0] ([wf_gen s0]: the empty
+    store [init b0], or what InitGenesis was given with distinct ids below the next id, limits within the
+    caps and actions signed for): every block is (begin) dispatch from the queue head — the actions are
+    bank sends and multi-sends, restricted-marker transfers, name bindings, authz grants, trigger
+    destructions and nested trigger creations —, (txs) creations / destructions / plain sends, (end)
+    detection of transaction events, then height, then time, through the ordered listener scan.  The outcome
+    oracles of the actions, the gas figures and the events of each block are arbitrary. *)
 From Coq Require Import ZArith NArith List Bool.
-From PV Require Import Trigger.Trigger Proofs.TriggerProofs.
+From PV Require Import Trigger.Trigger Proofs.TriggerDetectProofs Proofs.TriggerLiveProofs Proofs.TriggerProofs
+                       Proofs.TriggerGlueProofs.
 Import ListNotations.
 Open Scope N_scope.
 
 (** Every id is in at most one place: the number of registry entries plus the number of queue entries
     with that id is at most 1 (0 = gone or never created); ids that are somewhere were issued
     (1 <= id < next id); and an id that has ever been dispatched is in neither place. *)
-Theorem C17_exactly_one_place : forall b0 bs s outs,
-  run (init b0) bs = (s, outs) ->
+Theorem C17_exactly_one_place : forall s0 bs s outs,
+  wf_gen s0 -> run s0 bs = (s, outs) ->
   forall i, (cnt (reg s) i + cnt (queue s) i <= 1)%nat /\
             ((0 < cnt (reg s) i + cnt (queue s) i)%nat -> 1 <= i < next_id s) /\
             ((0 < cnt (disp_of outs) i)%nat -> cnt (reg s) i = 0%nat /\ cnt (queue s) i = 0%nat).
@@ -21,113 +25,276 @@ Proof. exact exactly_one_place. Qed.
 Print Assumptions C17_exactly_one_place.
 
 (** Over a whole history no id is dispatched twice. *)
-Theorem C17_at_most_once : forall b0 bs s outs,
-  run (init b0) bs = (s, outs) -> NoDup (map eid (disp_of outs)).
+Theorem C17_at_most_once : forall s0 bs s outs,
+  wf_gen s0 -> run s0 bs = (s, outs) -> NoDup (map eid (disp_of outs)).
 Proof. exact at_most_once. Qed.
 Print Assumptions C17_at_most_once.
 
-(** A trigger dispatched in the block that follows the history [bs] was detected by the end blocker of
-    one of the blocks of [bs] — a strictly earlier block, so it runs in the next block at the earliest —
-    and in that block its condition held (height reached, time reached, or a matching event among the
-    block's events). *)
-Theorem C17_not_before_condition : forall b0 bs b s outs s' o,
-  run (init b0) bs = (s, outs) -> step s b = (s', o) ->
+(** Ids are never reused: a trigger that is gone (executed or destroyed: its id was issued and is in neither
+    place) is never registered, queued, detected or dispatched again, whatever blocks follow. *)
+Theorem C17_gone_stays_gone : forall s0 bs s outs,
+  wf_gen s0 -> run s0 bs = (s, outs) ->
+  forall i, i < next_id s -> cnt (reg s) i = 0%nat -> cnt (queue s) i = 0%nat ->
+  forall bs' s' outs', run s bs' = (s', outs') ->
+  cnt (reg s') i = 0%nat /\ cnt (queue s') i = 0%nat /\ cnt (disp_of outs') i = 0%nat /\ cnt (det_of outs') i = 0%nat.
+Proof. exact gone_stays_gone. Qed.
+Print Assumptions C17_gone_stays_gone.
+
+(** A trigger dispatched in the block that follows the history [bs] was queued at genesis or detected by the
+    end blocker of one of the blocks of [bs] — a strictly earlier block, so it runs in the next block at the
+    earliest — and in that block its condition held (height reached, time reached, or a matching event
+    among the block's events). *)
+Theorem C17_not_before_condition : forall s0 bs b s outs s' o,
+  wf_gen s0 -> run s0 bs = (s, outs) -> step s b = (s', o) ->
   forall e ok, In (e, ok) (o_disp o) ->
+  In e (queue s0) \/
   exists b' o', In (b', o') (combine bs outs) /\ In e (o_det o') /\
-                met (b_height b') (b_time b') (b_events b') (t_event (fst e)) = true.
+                D_met (b_height b') (b_time b') (b_events b') (t_event (fst e)) = true.
 Proof. exact not_before_condition. Qed.
 Print Assumptions C17_not_before_condition.
 
-(** First in, first out: the sequence of all detections of the history is the sequence of all
-    dispatches followed by what is still queued. *)
-Theorem C17_fifo : forall b0 bs s outs,
-  run (init b0) bs = (s, outs) -> det_of outs = disp_of outs ++ queue s.
+(** First in, first out: what was queued at genesis followed by the sequence of all detections of the
+    history is the sequence of all dispatches followed by what is still queued. *)
+Theorem C17_fifo : forall s0 bs s outs,
+  wf_gen s0 -> run s0 bs = (s, outs) -> queue s0 ++ det_of outs = disp_of outs ++ queue s.
 Proof. exact fifo. Qed.
 Print Assumptions C17_fifo.
 
-(** All or nothing: after the begin blocker of any block of any history the balances are the previous
-    ones with, for each dispatched trigger in order, either all of its actions applied (success) or
-    none (failure, whatever the reason: an action failed, panicked or ran out of gas). *)
-Theorem C17_atomic : forall b0 bs s outs oracle s1 d,
-  run (init b0) bs = (s, outs) -> dispatch MaximumActions 0 s oracle = (s1, d) ->
-  bank s1 = fold_left (fun (b : bank_t) (x : entry * bool) =>
-                         if snd x then apply_all b (t_actions (fst (fst x))) else b) d (bank s).
-Proof. exact atomic. Qed.
+(** All or nothing, with heterogeneous effects: the begin blocker leaves exactly the state obtained by
+    applying, for each dispatched trigger in order, either the effect of ALL its actions ([eff_all]: both
+    coins, bound names, grants, destroyed and newly registered triggers, next id) or nothing at all
+    (failure, whatever the reason: an action was refused half-way, panicked or ran out of gas). *)
+Theorem C17_atomic : forall h t oracle nest fuel gas s s' d,
+  dispatch fuel h t gas s oracle nest = (s', d) ->
+  s' = set_queue (fold_left (eff_entry nest) d s) (skipn (length d) (queue s)).
+Proof. exact dispatch_effects. Qed.
 Print Assumptions C17_atomic.
 
+(** ... in particular a block whose dispatched triggers all failed leaves every store as it was (the model's
+    form of "the store digests before and after are identical"); only the queue lost its head items. *)
+Theorem C17_failed_trigger_changes_nothing : forall h t oracle nest fuel gas s s' d,
+  dispatch fuel h t gas s oracle nest = (s', d) ->
+  (forall x, In x d -> snd x = false) ->
+  cfg s' = cfg s /\ reg s' = reg s /\ next_id s' = next_id s /\ bank s' = bank s /\ rbank s' = rbank s /\
+  names s' = names s /\ grants s' = grants s /\ queue s' = skipn (length d) (queue s).
+Proof. exact dispatch_all_failed. Qed.
+Print Assumptions C17_failed_trigger_changes_nothing.
+
+(** The accept condition is evaluated action by action on the state the previous actions left, and a nested
+    creation takes all the gas that is left, so it can only succeed as the LAST action. *)
+Theorem C17_nested_creation_is_last : forall h t root plim nl acts s s',
+  exec_all h t root plim nl s acts = Some s' ->
+  forall pre a post, acts = pre ++ a :: post -> (exists au ev l, a = ACreate au ev l) -> post = [].
+Proof. exact nested_last. Qed.
+Print Assumptions C17_nested_creation_is_last.
+
 (** Caps: a block dispatches at most MaximumActions triggers whose gas limits sum to at most
-    MaximumQueueGas; every dispatched trigger's limit is at most MaximumTriggerGas and at most the gas
-    of the transaction that created it. *)
-Theorem C17_gas_caps : forall b0 bs b s outs s' o,
-  run (init b0) bs = (s, outs) -> step s b = (s', o) ->
+    MaximumQueueGas; every dispatched trigger's limit is at most MaximumTriggerGas, and limit plus the cost of
+    recording it is at most the gas that paid for it (the creating transaction's gas, or — for a trigger
+    created by a trigger action — the creating trigger's own limit: prepaid gas is never multiplied). *)
+Theorem C17_gas_caps : forall s0 bs b s outs s' o,
+  wf_gen s0 -> run s0 bs = (s, outs) -> step s b = (s', o) ->
   (length (o_disp o) <= MaximumActions)%nat /\
   sum_lim (map fst (o_disp o)) <= MaximumQueueGas /\
-  forall e ok, In (e, ok) (o_disp o) -> snd e <= MaximumTriggerGas /\ snd e <= t_prepaid (fst e).
+  forall e ok, In (e, ok) (o_disp o) -> snd e <= MaximumTriggerGas /\ snd e + SetGasLimitCost <= t_prepaid (fst e).
 Proof. exact gas_caps. Qed.
 Print Assumptions C17_gas_caps.
 
+(** The queue carry-over, exactly: a block dispatches the LONGEST prefix of the queue that has at most
+    MaximumActions items and whose gas limits fit into MaximumQueueGas; the rest stays, in order, in front of
+    what the block detects. *)
+Theorem C17_dispatch_exact : forall s b s' o,
+  step s b = (s', o) ->
+  let k := length (o_disp o) in
+  let lims := map snd (queue s) in
+  map fst (o_disp o) = firstn k (queue s) /\
+  queue s' = skipn k (queue s) ++ o_det o /\
+  (k <= MaximumActions)%nat /\ (k <= length (queue s))%nat /\
+  L_sum (firstn k lims) <= MaximumQueueGas /\
+  (k = MaximumActions \/ k = length (queue s) \/ MaximumQueueGas < L_sum (firstn (S k) lims)).
+Proof. exact dispatch_exact_hist. Qed.
+Print Assumptions C17_dispatch_exact.
+
+(** No starvation behind the caps: after any history, the trigger at position p of the queue is dispatched
+    within the next p+1 blocks, whatever those blocks contain (each block takes at least the queue head,
+    because every limit is at most MaximumTriggerGas = MaximumQueueGas and the block's gas counter starts at 0). *)
+Theorem C17_no_starvation : forall s0 bs s outs p e bs' s' outs',
+  wf_gen s0 -> run s0 bs = (s, outs) -> nth_error (queue s) p = Some e ->
+  run s bs' = (s', outs') -> (p < length bs')%nat -> In e (disp_of outs').
+Proof. exact no_starvation_hist. Qed.
+Print Assumptions C17_no_starvation.
+
+(** ... and m per block while the limits in front are small: with limits <= g and m*g <= MaximumQueueGas
+    (m <= MaximumActions) the trigger at position p runs within ceil((p+1)/m) blocks. *)
+Theorem C17_no_starvation_fast : forall bs s s' outs p e (m : nat) g,
+  (1 <= m <= MaximumActions)%nat -> N.of_nat m * g <= MaximumQueueGas ->
+  (forall i x, (i <= p)%nat -> nth_error (queue s) i = Some x -> snd x <= g) ->
+  nth_error (queue s) p = Some e -> run s bs = (s', outs) -> (p < m * length bs)%nat ->
+  In e (L_disp_of outs).
+Proof. exact no_starvation_fast. Qed.
+Print Assumptions C17_no_starvation_fast.
+
 (** Destroy, attempted at any point of any block after any history: it succeeds only for a trigger
-    that is in the registry and owned by the caller, which is then in neither place; a queued trigger
-    cannot be destroyed; a refused destroy changes nothing. *)
-Theorem C17_destroy_rules : forall b0 bs s outs oracle s1 d h t txs s2 oks who id s3 ok,
-  run (init b0) bs = (s, outs) ->
-  dispatch MaximumActions 0 s oracle = (s1, d) ->
-  apply_txs h t s1 txs = (s2, oks) ->
+    that is in the registry and owned by the caller (the FIRST authority of its creation: see
+    C17_create_requires_signers), which is then in neither place; a queued trigger cannot be destroyed; a
+    refused destroy changes nothing. *)
+Theorem C17_destroy_rules : forall s0 bs s outs h t oracle nest s1 d txs s2 oks who id s3 ok,
+  wf_gen s0 -> run s0 bs = (s, outs) ->
+  dispatch MaximumActions h t 0 s oracle nest = (s1, d) -> apply_txs h t s1 txs = (s2, oks) ->
   apply_tx h t s2 (TDestroy who id) = (s3, ok) ->
-  (ok = true -> (exists e, In e (reg s2) /\ eid e = id /\ t_owner (fst e) = who) /\
-                cnt (queue s2) id = 0%nat /\ cnt (reg s3) id = 0%nat /\ queue s3 = queue s2) /\
-  ((0 < cnt (queue s2) id)%nat -> ok = false) /\
-  (ok = false -> s3 = s2).
+  (ok = true -> id <> 0 /\ (exists e, In e (reg s2) /\ eid e = id /\ t_owner (fst e) = who) /\
+                cnt (queue s2) id = 0%nat /\ cnt (reg s3) id = 0%nat /\ queue s3 = queue s2 /\
+                s3 = set_reg s2 (remove_id id (reg s2))) /\
+  ((0 < cnt (queue s2) id)%nat -> ok = false) /\ (ok = false -> s3 = s2).
 Proof. exact destroy_rules. Qed.
 Print Assumptions C17_destroy_rules.
 
+(** Races inside one block: once a destroy of [id] was accepted, whatever transactions precede and follow it
+    in the block, [id] is not registered at the end of the block and is not detected by that block's end
+    blocker (and by C17_gone_stays_gone never later), even if the block carries a matching event. *)
+Theorem C17_destroyed_in_block_never_detected : forall h t s1 pre who id post s2 oks det disp evs,
+  Inv s1 det disp -> apply_txs h t s1 (pre ++ TDestroy who id :: post) = (s2, oks) ->
+  nth (length pre) oks false = true ->
+  cnt (reg s2) id = 0%nat /\ id < next_id s2 /\ forall x, In x (detect h t evs (reg s2)) -> eid x <> id.
+Proof. exact destroyed_in_block_never_detected. Qed.
+Print Assumptions C17_destroyed_in_block_never_detected.
+
 (** Authority: a creation is accepted only if the transaction's signers are exactly the message's
-    authorities and EVERY required signer of every action is one of them; the stored trigger carries those actions, the
-    first authority as owner, and a gas limit within the transaction's gas ... *)
+    authorities and EVERY required signer of every action is one of them; the event passed Validate and
+    ValidateContext; the stored trigger carries those actions, the first authority as owner, and a gas limit
+    within the transaction's gas ... *)
 Theorem C17_create_requires_signers : forall h t s sg au ev acts g u s',
   apply_tx h t s (TCreate sg au ev acts g u) = (s', true) ->
-  sg = au /\ (forall a x, In a acts -> In x (a_signers a) -> In x au) /\ acts <> [] /\ event_valid_ctx h t ev = true /\
-  exists owner rest lim,
-    au = owner :: rest /\ lim <= MaximumTriggerGas /\ lim <= g /\
-    s' = {| reg := reg s ++ [({| t_id := next_id s; t_owner := owner; t_event := ev; t_actions := acts;
-                                  t_auths := au; t_prepaid := g |}, lim)];
-            queue := queue s; next_id := next_id s + 1; bank := bank s |}.
+  sg = au /\ (forall a x, In a acts -> In x (a_signers a) -> In x au) /\ acts <> [] /\
+  event_valid_ctx h t ev = true /\ event_valid ev = true /\
+  exists owner rest lim, au = owner :: rest /\ lim <= MaximumTriggerGas /\ lim + SetGasLimitCost <= g /\
+    s' = register s owner au au ev acts lim g.
 Proof. exact create_accepted. Qed.
 Print Assumptions C17_create_requires_signers.
 
-(** ... and over every history each dispatched trigger's actions are signed for: the signer of each
-    action, and the owner, are among the authorities of the creating transaction. *)
-Theorem C17_action_signers : forall b0 bs b s outs s' o,
-  run (init b0) bs = (s, outs) -> step s b = (s', o) ->
+(** ... a creation performed BY a trigger action registers a trigger whose authorities, event and actions
+    passed the same validation at that block, with a limit taken out of the running trigger's own ... *)
+Theorem C17_nested_creation : forall h t root plim nl s au ev acts s',
+  exec_action h t root plim nl s (ACreate au ev acts) = Some s' ->
+  exists owner rest lim, au = owner :: rest /\ nl = Some lim /\ lim + SetGasLimitCost <= plim /\
+    validate_basic0 au ev acts = true /\ event_valid_ctx h t ev = true /\
+    s' = register s owner au root ev (map ABasic acts) lim plim.
+Proof. exact nested_registered. Qed.
+Print Assumptions C17_nested_creation.
+
+(** ... and over every history each dispatched trigger's actions are signed for: the owner and every
+    required signer of every action are among the authorities of its creation, and those are among the
+    signers of the transaction the trigger ultimately stems from ([t_root]: handed down unchanged through
+    nested creations). *)
+Theorem C17_action_signers : forall s0 bs b s outs s' o,
+  wf_gen s0 -> run s0 bs = (s, outs) -> step s b = (s', o) ->
   forall e ok, In (e, ok) (o_disp o) ->
   In (t_owner (fst e)) (t_auths (fst e)) /\
-  forall a x, In a (t_actions (fst e)) -> In x (a_signers a) -> In x (t_auths (fst e)).
+  (forall a x, In a (t_actions (fst e)) -> In x (a_signers a) -> In x (t_auths (fst e))) /\
+  (forall x, In x (t_auths (fst e)) -> In x (t_root (fst e))).
 Proof. exact action_signers. Qed.
 Print Assumptions C17_action_signers.
+
+(** Event matching, exactly: a transaction event condition matches an emitted event iff the type names are
+    equal and EVERY requested attribute (name, value; empty value = any) is present in the event — repeated
+    keys, supersets and further attributes of the event do not matter. *)
+Theorem C17_match_exact : forall name attrs e,
+  tx_matches name attrs e = true <->
+  (name = em_type e /\ forall w, In w attrs -> exists g, In g (em_attrs e) /\ fst g = fst w /\ (snd w = 0 \/ snd w = snd g)).
+Proof. exact tx_matches_spec. Qed.
+Print Assumptions C17_match_exact.
+
+(** Detection, exactly, over all histories whose block times are not before 1970 ([TimeOk s0]: the imported
+    time triggers lie in 1970 .. MaxInt64 ns, which is what Validate enforces for messages): of the triggers
+    registered when the end blocker of a block runs ([reg s2]: after that block's dispatches and
+    transactions, so including those created in this very block, whatever their position relative to the
+    emitting transaction), the detected ones are
+      - a height trigger iff its height is reached (also 2^63 <= height < 2^64: never; a transaction event
+        named "block-height" sits under the same listener prefix and neither matches nor stops the scan),
+      - a time trigger iff its time is reached, to the nanosecond,
+      - a transaction-event trigger iff SOME event of the block whose type has the trigger's listener
+        prefix matches it (commit 77d9b10c4: an earlier non-matching event no longer hides it);
+    nothing else is detected, and nothing twice. *)
+Theorem C17_detection_exact : forall s0 bs s outs b s1 d s2 oks,
+  wf_gen s0 -> TimeOk s0 -> run s0 bs = (s, outs) ->
+  (forall b', In b' bs -> (0 <= b_time b')%Z) -> (0 <= b_time b)%Z ->
+  dispatch MaximumActions (b_height b) (b_time b) 0 s (b_oracle b) (b_nest b) = (s1, d) ->
+  apply_txs (b_height b) (b_time b) s1 (b_txs b) = (s2, oks) ->
+  (forall x, In x (reg s2) ->
+     (In x (detect (b_height b) (b_time b) (b_events b) (reg s2)) <->
+      match t_event (fst x) with
+      | EvHeight v => v <= b_height b
+      | EvTime v => (v <= b_time b)%Z
+      | EvTx name lname attrs =>
+          exists e, In e (b_events b) /\ em_ltype e = lname /\ tx_matches name attrs e = true
+      end)) /\
+  (forall x, In x (detect (b_height b) (b_time b) (b_events b) (reg s2)) -> In x (reg s2)) /\
+  NoDup (map eid (detect (b_height b) (b_time b) (b_events b) (reg s2))).
+Proof. exact detection_exact. Qed.
+Print Assumptions C17_detection_exact.
+
+(** ... in particular a time trigger fires in the block whose time equals its time and not in a block one
+    nanosecond earlier. *)
+Theorem C17_time_boundary : forall s0 bs s outs b s1 d s2 oks,
+  wf_gen s0 -> TimeOk s0 -> run s0 bs = (s, outs) ->
+  (forall b', In b' bs -> (0 <= b_time b')%Z) -> (0 <= b_time b)%Z ->
+  dispatch MaximumActions (b_height b) (b_time b) 0 s (b_oracle b) (b_nest b) = (s1, d) ->
+  apply_txs (b_height b) (b_time b) s1 (b_txs b) = (s2, oks) ->
+  forall x v, In x (reg s2) -> t_event (fst x) = EvTime v ->
+  ((b_time b = v - 1)%Z -> ~ In x (detect (b_height b) (b_time b) (b_events b) (reg s2))) /\
+  ((b_time b = v)%Z -> In x (detect (b_height b) (b_time b) (b_events b) (reg s2))).
+Proof. exact time_boundary. Qed.
+Print Assumptions C17_time_boundary.
+
+(** The time range is kept by every history: all registered time triggers lie in 0 .. MaxInt64 ns. *)
+Theorem C17_time_range_invariant : forall bs s s' outs,
+  TimeOk s -> (forall b, In b bs -> (0 <= b_time b)%Z) -> run s bs = (s', outs) -> TimeOk s'.
+Proof. exact TimeOk_run. Qed.
+Print Assumptions C17_time_range_invariant.
+
+(** Why Validate must bound the time (keeper-level statement about a registry that was NOT validated; the
+    defect repaired by commit 0ecc451a1): the listener order is the time modulo 2^64, so a registered time
+    beyond 2^64 ns sorts first and ends the scan: a trigger whose time is reached is not detected. *)
+Theorem C17_time_detection_refuted_without_validation : exists t r x v,
+  NoDup (map eid r) /\ In x r /\ t_event (fst x) = EvTime v /\ (v <= t)%Z /\ ~ In x (detect_time t r).
+Proof. exact detect_time_refuted. Qed.
+Print Assumptions C17_time_detection_refuted_without_validation.
 
 (** [run] is the fold of [step] the conventions ask for. *)
 Theorem C17_run_is_fold : forall bs s, fst (run s bs) = fold_left (fun st b => fst (step st b)) bs s.
 Proof. exact run_state_eq. Qed.
 Print Assumptions C17_run_is_fold.
 
-(** Non-vacuity: account 1 (balance 100) creates, in block 5, a height-7 trigger with two sends and a
-    time trigger whose second send cannot be paid; a stranger's destroy is refused, the owner's is
-    accepted for a third trigger.  Both are detected in block 7 (height before time), dispatched in
-    block 8 in that order: the first takes full effect, the second none. *)
+(** The empty store is a well-formed start. *)
+Theorem C17_init_wf : forall b, wf_gen (init b) /\ TimeOk (init b).
+Proof. intro b. split; [exact (wf_gen_init0 b)|exact (TimeOk_init cfg0 b (fun _ => 0%Z))]. Qed.
+Print Assumptions C17_init_wf.
+
+(** Non-vacuity: account 1 (balance 100; may transfer the restricted coin; owns the root name) creates, in
+    block 5, (1) a time trigger whose second action cannot be paid, (2) a height-7 trigger with a send, a
+    multi-send, a grant, a name binding, a marker transfer and finally a nested creation, (3) a trigger it
+    destroys again (the stranger's destroy is refused), (4) a transaction-event trigger, created AFTER the
+    matching event was emitted in the same block.  (4) is detected in block 5 (and fails in block 6: account 2 has nothing to send), (2) then (1) in block 7; in
+    block 8 (2) takes full effect — trigger 5 is registered out of its gas — and (1) none at all. *)
 Example C17_witness :
+  let c := {| xfer_admins := [1]; root_owner := 1 |} in
   let b0 : bank_t := fun a => if a =? 1 then 100%Z else 0%Z in
-  let send f t v := {| a_from := f; a_to := t; a_amt := v; a_co := [] |} in
-  let blk h t txs := {| b_height := h; b_time := t; b_oracle := []; b_txs := txs; b_events := [] |} in
-  let bs := [ blk 5 50 [ TCreate [1] [1] (EvTime 70) [send 1 2 10%Z; send 1 3 500%Z] 200000 80000;
-                         TCreate [1] [1] (EvHeight 7) [send 1 2 30%Z; send 1 3 5%Z] 200000 80000;
-                         TCreate [2] [2] (EvHeight 9) [send 2 1 1%Z] 200000 80000;
-                         TCreate [2] [2] (EvHeight 9) [{| a_from := 2; a_to := 1; a_amt := 0%Z; a_co := [1] |}] 200000 80000; (* co-signer 1 did not sign *)
-                         TDestroy 1 3; TDestroy 2 3 ];
-              blk 6 60 []; blk 7 70 []; blk 8 80 [TDestroy 1 1] ] in
-  let '(s, outs) := run (init b0) bs in
-  map o_txres outs = [[true; true; true; false; false; true]; []; []; [false]] /\
-  map (fun o => map eid (o_det o)) outs = [[]; []; [2; 1]; []] /\
-  map (fun o => map (fun x => (eid (fst x), snd x)) (o_disp o)) outs = [[]; []; []; [(2, true); (1, false)]] /\
-  reg s = [] /\ queue s = [] /\ next_id s = 4 /\
-  (bank s 1, bank s 2, bank s 3) = (65%Z, 30%Z, 5%Z).
+  let blk h t nest txs evs := {| b_height := h; b_time := t; b_oracle := []; b_nest := nest; b_txs := txs; b_events := evs |} in
+  let bs := [ blk 5 50%Z [] [ TCreate [1] [1] (EvTime 70) [ABasic (ASend 1 2 10%Z); ABasic (ASend 1 3 500%Z)] 200000 80000;
+                            TCreate [1] [1] (EvHeight 7)
+                              [ABasic (ASend 1 2 30%Z); ABasic (AMulti 1 5%Z [(2, 2%Z); (3, 3%Z)]); ABasic (AGrant 1 2 None);
+                               ABasic (ABind 1 4 3); ABasic (AMarker 1 1 2 9%Z); ACreate [1] (EvHeight 99) [ASend 1 2 1%Z]] 400000 90000;
+                            TCreate [2] [2] (EvHeight 9) [ABasic (ASend 2 1 1%Z)] 200000 80000;
+                            TDestroy 1 3; TDestroy 2 3;
+                            TCreate [2] [2] (EvTx 7 7 [(8, 0); (9, 6)]) [ABasic (ASend 2 1 1%Z)] 200000 80000;
+                            TCreate [2] [2] (EvHeight 9) [ABasic (ASend 2 1 0%Z); ACreate [2; 1] (EvHeight 99) [ASend 2 1 1%Z]] 200000 80000 (* co-signer 1 did not sign *) ]
+                          [ {| em_type := 7; em_ltype := 7; em_attrs := [(9, 6); (9, 6); (8, 3)] |} ];
+              blk 6 60%Z [] [] []; blk 7 70%Z [] [] []; blk 8 80%Z [(2, 100000)] [TDestroy 1 1] [] ] in
+  let '(s, outs) := run (init_cfg c b0 (fun a => if a =? 1 then 50%Z else 0%Z)) bs in
+  map o_txres outs = [[true; true; true; false; true; true; false]; []; []; [false]] /\
+  map (fun o => map eid (o_det o)) outs = [[4]; []; [2; 1]; []] /\
+  map (fun o => map (fun x => (eid (fst x), snd x)) (o_disp o)) outs = [[]; [(4, false)]; []; [(2, true); (1, false)]] /\
+  map (fun e => (eid e, snd e, t_prepaid (fst e))) (reg s) = [(5, 100000, 307490)] /\ queue s = [] /\ next_id s = 6 /\
+  (bank s 1, bank s 2, bank s 3, rbank s 1, rbank s 2) = (65%Z, 32%Z, 3%Z, 41%Z, 9%Z) /\
+  names s = [(4, 3)] /\ grants s = [(1, 2)].
 Proof. vm_compute. repeat split; reflexivity. Qed.
